@@ -11,7 +11,19 @@ WHEELS = "/opt/veriftools/wheels"
 
 
 def ensure_deps():
+    import fcntl
+
     os.makedirs(DEPS, exist_ok=True)
+    lock = open(os.path.join(os.path.dirname(DEPS), "deps.lock"), "w")
+    fcntl.flock(lock, fcntl.LOCK_EX)  # several checks may start at once on a fresh clone
+    try:
+        return _ensure_deps()
+    finally:
+        fcntl.flock(lock, fcntl.LOCK_UN)
+        lock.close()
+
+
+def _ensure_deps():
     need = []
     if not os.path.isdir(os.path.join(DEPS, "scipy")):
         need.append(("scipy", ["--no-deps"]))
